@@ -24,12 +24,13 @@ RULE = ("cases = directive lists printed as C files: (a) trees of the property's
         "distinct = canonical op text")
 EXPLANATION = ("Lean theorems about an executable copy of getConfigs/cfg/hasDefine/isUndefined and of the selection loop of "
                "checkInternal: the full coverage statement is refuted on the code as it is (two proved counterexamples = F15, F16), "
-               "proved for exactly the trees accepted by the decidable predicate `safe` and for every tree under the repaired "
-               "algorithm; -D/-U/budget theorems. Tie: in-process correspondence of configurations and of per-configuration "
+               "proved for exactly the trees accepted by the decidable predicate `safe` (sufficiency and necessity: "
+               "every_region_covered_iff_safe) and for every tree under the repaired algorithm; -D/-U/budget theorems. Tie: in-process correspondence of configurations and of per-configuration "
                "live regions (real simplecpp) plus CLI runs. Outside the model: #elif, #if expressions other than defined()/"
                "!defined(), #error, include guards / included files, library defines, token-hash purging of equal configurations.")
 THEOREMS = ["Cppcheck.Configs.every_region_covered_of_safe", "Cppcheck.Configs.region_uncovered_counterexample",
             "Cppcheck.Configs.region_uncovered_counterexample_notdefined", "Cppcheck.Configs.every_region_covered_partial",
+            "Cppcheck.Configs.region_uncovered_of_unsafe", "Cppcheck.Configs.every_region_covered_iff_safe",
             "Cppcheck.Configs.every_region_covered_simple", "Cppcheck.Configs.every_region_covered_fixElse",
             "Cppcheck.Configs.safe_repaired", "Cppcheck.Configs.every_region_covered_repaired",
             "Cppcheck.Configs.analysed_all_within_budget", "Cppcheck.Configs.covered_within_budget",
@@ -45,7 +46,7 @@ KEY_F16 = "if-not-defined-paired-with-defined"
 # item = ("r", id) | ("c", kind, macro, thn, els|None) ; kind in d (#ifdef) n (#ifndef) D (#if defined) N (#if !defined)
 
 NAMEPOOL = (["M%d" % i for i in range(0, 24)] + list("ABCDEFGHXYZ") + ["AA", "AB", "BA", "A1", "FOO", "FOO_BAR", "BAR", "x", "_y1", "WIN32",
-            "DEBUG", "NDEBUG", "HAVE_X", "HAVE_XY", "defined", "a"])
+            "DEBUG", "NDEBUG", "HAVE_X", "HAVE_XY", "defined", "b", "zz"])   # never `a`, `f<k>`, `int`, `void`: the planted code uses them
 
 
 def gen_tree(rng, names, budget, depth=0, kinds="ddnDN", p_else=0.45, p_region=0.55, repeat=False):
@@ -417,8 +418,8 @@ def p_impl_inprocess(ctx, res, cases, parsed, impl_lines):
         for cf in cfgs:
             bad = [u for u in undefs if u in cfg_names(cf)]
             if bad:
-                res.violation("-U %s but getConfigs returned configuration %r that defines it" % (bad[0], cf),
-                              dict(kind="inprocess", words=c["words"], ud=ud, undefs=list(undefs), cfgs=cfgs), concrete=True, key=None)
+                report(res, "-U %s but getConfigs returned configuration %r that defines it" % (bad[0], cf),
+                       dict(kind="inprocess", words=c["words"], ud=ud, undefs=list(undefs), cfgs=cfgs), None)
         if not c.get("family") or lives is None or ud or undefs:
             continue
         t = c["tree"]
